@@ -338,6 +338,7 @@ func runC15(c *Ctx) {
 			}
 			i += k
 		}
+		declEnd := sb.Len() // the typed declarations end here; the member reads of flow (i) follow
 		for _, v := range w.Vars {
 			if v.Class == "" {
 				emit(fmt.Sprintf("local _ = %s.anything", v.Name))
@@ -470,6 +471,12 @@ func runC15(c *Ctx) {
 				}
 				for l := range labels {
 					if _, ok := fields[l]; !ok && !extra[l] {
+						if phase != "" && strings.Contains(base, v.Name+v.Access+"."+l+"\n") {
+							// a member the use file itself reads on this variable is offered as a member seen in code,
+							// whatever the variable's class declares (by design); before the deletion it was a declared field
+							c.Count("dont_care_member_read_in_the_use_file", 1)
+							continue
+						}
 						surplus = append(surplus, l)
 					}
 				}
@@ -533,6 +540,9 @@ func runC15(c *Ctx) {
 				}
 				delete(files, victim)
 				phase = "|after-class-file-deleted"
+				// the use file keeps its typed declarations only: a member that the file itself reads on a variable is
+				// offered as "seen in code" whatever the class declares (by design), which would hide a stale class
+				base = base[:declEnd]
 				c.Count("class_file_deletions", 1)
 				completionFlow()
 			}
